@@ -1,0 +1,85 @@
+//go:build verif
+
+// Contracts checked by /verif/gvc (contract-based deductive verification).
+// This file contains comments only; it is compiled only under the "verif" build tag.
+
+package server
+
+// C07 / C11 / C14 / C12 — subscribeHandler: the OnSubscribe verdict, what is installed, what is replayed from the
+// retained store. The clauses are call-site assertions: they hold in whatever loop iteration the call is made.
+
+// OnSubscribe: plugin code. It may edit the subscriptions of the request (through GrantQoS / Reject / direct
+// edits of the pointed-to Subscription) but not the shape of the map (hook.go: "must not change the length of the
+// map"), and it leaves every Sub pointer non-nil. $onSub counts the calls, $onSubErr is the verdict of the last one.
+//@ ghost field (Hooks).onSub int
+//@ ghost field (Hooks).onSubErr error
+//@ func field (Hooks).OnSubscribe
+//@ params self, ctx, c, req
+//@ requires req != nil
+//@ modifies heap, ghost(self.$onSub), ghost(self.$onSubErr)
+//@ preserves all(client.*), all(ClientOptions.*), all(server.*), all(Hooks.*), all(config.MQTT.*), all(packets.Subscribe.*), all(packets.Suback.*), all(packets.Properties.*), all(SubscribeRequest.*), allelems(packets.Topic), allelems(codes.Code), allelems(uint32)
+//@ ensures self.$onSub == old(self.$onSub) + 1 && self.$onSubErr == result
+//@ ensures forall k string :: has(req.Subscriptions, k) == old(has(req.Subscriptions, k)) && req.Subscriptions[k] == old(req.Subscriptions[k])
+//@ ensures forall k string :: has(req.Subscriptions, k) ==> req.Subscriptions[k].Sub != nil
+// a per-topic Error set by a plugin is a refusal: its reason code, if it is a *codes.Error, is a failure code (>= 0x80)
+//@ ensures forall k string :: has(req.Subscriptions, k) ==> failing(req.Subscriptions[k].Error)
+
+//@ func field (Hooks).OnSubscribed
+//@ params self, ctx, c, s
+
+//@ func (*queueNotifier).notifyDropped trusted
+//@ requires q != nil && msg != nil
+
+//@ func (*client).subscribeHandler
+//@ props C07 C11 C14 C12
+//@ let H = client.server.hooks
+//@ let D = client.server.subscriptionsDB
+//@ let R = client.server.retainedDB
+//@ requires [C14] client != nil && sub != nil && client.server != nil && client.opts != nil && client.rwc != nil && client.queueStore != nil && client.queueNotifier != nil && D != nil && R != nil
+//@ requires [C14] client.version == 5 ==> sub.Properties != nil
+// what the decoder guarantees about the topic entries (Subscribe.Unpack, C06)
+//@ spec func topicsOK(sub *packets.Subscribe) bool = forall i int :: 0 <= i && i < len(sub.Topics) ==> sub.Topics[i].RetainHandling <= 2
+//@ requires [C07] topicsOK(sub)
+//@ modifies heap, ghost(H.$onSub), ghost(H.$onSubErr), ghost(D.$subs), ghost(D.$lastSubClient), ghost(D.$lastSub), ghost(client.$nout), ghost(client.$lastOut), ghostall(queue.Store.$adds), ghost(R.$gets), ghost(R.$lastGet)
+// a SUBSCRIBE refused by the hook installs nothing, replays nothing, and is answered (one SUBACK)
+//@ ensures [C14] old(H.OnSubscribe) != nil ==> H.$onSub == old(H.$onSub) + 1 || (H.$onSub == old(H.$onSub) && result != nil && D.$subs == old(D.$subs) && client.queueStore.$adds == old(client.queueStore.$adds))
+//@ spec func noErr(e error) bool = e == nil || (e.(type *codes.Error) && e.(*codes.Error) == nil)
+//@ ensures [C14] old(H.OnSubscribe) != nil && H.$onSub == old(H.$onSub) + 1 && !noErr(H.$onSubErr) ==> D.$subs == old(D.$subs) && client.queueStore.$adds == old(client.queueStore.$adds) && result == nil
+//@ spec func subOK(client *client, sub *packets.Subscribe, subReq *SubscribeRequest, suback *packets.Suback) bool = client.server != nil && client.opts != nil && client.rwc != nil && client.queueStore != nil && client.queueNotifier != nil && client.server.subscriptionsDB != nil && client.server.retainedDB != nil && subReq != nil && subReq.Subscriptions != nil && suback != nil && len(suback.Payload) == len(sub.Topics) && subReq.Subscribe == sub && sub.Topics == old(sub.Topics) && client.server == old(client.server) && client.server.subscriptionsDB == old(client.server.subscriptionsDB) && client.server.retainedDB == old(client.server.retainedDB) && client.queueStore == old(client.queueStore)
+//@ spec func reqOK(sub *packets.Subscribe, subReq *SubscribeRequest, n int) bool = forall j int :: 0 <= j && j < n ==> has(subReq.Subscriptions, sub.Topics[j].Name) && subReq.Subscriptions[sub.Topics[j].Name] != nil && subReq.Subscriptions[sub.Topics[j].Name].Sub != nil && failing(subReq.Subscriptions[sub.Topics[j].Name].Error)
+//@ loop 1 invariant subOK(client, sub, subReq, suback) && isfresh(subReq) && isfresh(subReq.Subscriptions) && isfresh(suback) && H.$onSub == old(H.$onSub)
+//@ loop 1 invariant reqOK(sub, subReq, $k + 1) && topicsOK(sub)
+//@ loop 2 invariant subOK(client, sub, subReq, suback) && ce != nil && old(H.OnSubscribe) != nil && H.$onSub == old(H.$onSub) + 1 && H.$onSubErr == err && D.$subs == old(D.$subs) && client.queueStore.$adds == old(client.queueStore.$adds)
+//@ loop 3 invariant subOK(client, sub, subReq, suback) && srv == client.server
+//@ loop 3 invariant reqOK(sub, subReq, len(sub.Topics)) && topicsOK(sub)
+//@ loop 3 invariant old(H.OnSubscribe) != nil ==> H.$onSub == old(H.$onSub) + 1 && noErr(H.$onSubErr)
+//@ loop 3 invariant old(H.OnSubscribe) == nil ==> H.$onSub == old(H.$onSub)
+//@ loop 4 invariant subOK(client, sub, subReq, suback) && srv == client.server && reqOK(sub, subReq, len(sub.Topics)) && topicsOK(sub) && sub#2 != nil
+//@ loop 5 invariant subOK(client, sub, subReq, suback) && srv == client.server
+//@ loop 5 invariant reqOK(sub, subReq, len(sub.Topics)) && topicsOK(sub)
+//@ loop 5 invariant sub#2 != nil && len(subRs) == 1 && subRs[0].Subscription == sub#2
+//@ loop 5 invariant forall i int :: 0 <= i && i < len(msgs) ==> msgs[i] != nil
+//@ loop 5 invariant 0 <= k#2 && k#2 < len(sub.Topics) && suback.Payload[k#2] == sub#2.QoS && suback.Payload[k#2] < 128 && D.$subs == at(iter3, D.$subs) + 1 && D.$lastSub == sub#2 && D.$lastSubClient == client.opts.ClientID && R.$gets == at(iter3, R.$gets) + 1 && replayDue(sub#2, v#2.RetainHandling, subRs[0].AlreadyExisted)
+
+// What is installed (C14, C11): Subscribe is called exactly for the topic entries that are granted — with the
+// subscription as the hook left it, under the client's id; an entry with an error verdict, or a shared subscription
+// for a client that was told shared subscriptions are unavailable, gets a failure code and is not installed.
+//@ call Store.Subscribe#1 assert [C14 C11] clientID == client.opts.ClientID && len(subscriptions) == 1 && subscriptions[0] == subReq.Subscriptions[sub.Topics[k#2].Name].Sub && subscriptions[0] == sub#2
+//@ call Store.Subscribe#1 assert [C14] subErr == nil && code == sub#2.QoS
+//@ call Store.Subscribe#1 assert [C11] client.version == 5 && sub#2.ShareName != "" ==> client.opts.SharedSubAvailable
+//@ loop 3 step [C14] subErr != nil ==> suback.Payload[k#2] >= 128 && D.$subs == at(iter3, D.$subs)
+//@ loop 3 step [C14 C11] suback.Payload[k#2] < 128 ==> D.$subs == at(iter3, D.$subs) + 1 && D.$lastSub == sub#2 && D.$lastSubClient == client.opts.ClientID && suback.Payload[k#2] == sub#2.QoS
+//@ loop 3 step [C14 C11] suback.Payload[k#2] >= 128 ==> R.$gets == at(iter3, R.$gets) && client.queueStore.$adds == at(iter3, client.queueStore.$adds)
+//@ loop 3 step [C11] client.version == 5 && sub#2.ShareName != "" && !client.opts.SharedSubAvailable ==> suback.Payload[k#2] >= 128 && D.$subs == at(iter3, D.$subs)
+// Retained replay (C07, C11): the retained store is consulted for an installed subscription iff it is not shared and
+// Retain Handling is 0, or 1 with a subscription that did not exist before; never for Retain Handling 2.
+//@ spec func replayDue(s *gmqtt.Subscription, rh byte, existed bool) bool = s.ShareName == "" && (rh == 0 || (rh == 1 && !existed))
+//@ call Store.GetMatchedMessages#1 assert [C07 C11] replayDue(sub#2, v#2.RetainHandling, subRs[0].AlreadyExisted) && topicFilter == sub#2.TopicFilter && code < 128
+//@ loop 3 step [C07] suback.Payload[k#2] < 128 && replayDue(sub#2, v#2.RetainHandling, subRs[0].AlreadyExisted) ==> R.$gets == at(iter3, R.$gets) + 1
+//@ loop 3 step [C07 C11] suback.Payload[k#2] < 128 && !replayDue(sub#2, v#2.RetainHandling, subRs[0].AlreadyExisted) ==> R.$gets == at(iter3, R.$gets) && client.queueStore.$adds == at(iter3, client.queueStore.$adds)
+// every replayed message is enqueued once, on the subscriber's own queue, at min(stored QoS, granted QoS), DUP 0
+//@ call Store.Add#1 assert [C07] q == client.queueStore && elem.MessageWithID.(type *queue.Publish) && elem.MessageWithID.(*queue.Publish).Message == v#3 && v#3 == msgs[rangeindex#4]
+//@ call Store.Add#1 assert [C07] v#3.QoS == min(at(iter, msgs[rangeindex#4 + 1].QoS), subRs[0].Subscription.QoS) && !v#3.Dup && elem.At == now
+//@ call Store.Add#1 assert [C07] sub#2.RetainAsPublished ==> v#3.Retained == at(iter, msgs[rangeindex#4 + 1].Retained)
+// MQTT 3.3.1.3 / the property: a message sent because of a new subscription carries RETAIN = 1
+//@ call Store.Add#1 assert [C07] !sub#2.RetainAsPublished ==> v#3.Retained
